@@ -39,6 +39,9 @@ pub enum Op {
     /// the destination of flow i keeps the flow alive on its own: n replies, one every
     /// `gap` eighths of T (2 or 3), with no client datagram in between
     ReplyChain(u8, u8, u8),
+    /// flow i is busy: 10-25 client datagrams, one every T/8, for longer than T (the other flows
+    /// see no traffic meanwhile and must expire on time)
+    BusyFlow(u8, u8),
 }
 
 #[derive(Serialize, Deserialize, Debug, Clone)]
@@ -213,8 +216,16 @@ async fn run_history(c: &Case, shard_tag: u32) -> Verdict {
             );
         }
         match op {
-            Op::Send(i) => {
-                let i = *i as usize % 4;
+            Op::Send(_) | Op::BusyFlow(..) => {
+              let (i, reps) = match op {
+                  Op::Send(i) => (*i as usize % 4, 1usize),
+                  Op::BusyFlow(i, n) => (*i as usize % 3, 10 + *n as usize % 16),
+                  _ => unreachable!(),
+              };
+              for rep in 0..reps {
+                if rep > 0 {
+                    tokio::time::sleep(Duration::from_millis(T_MS / 8)).await;
+                }
                 seq += 1;
                 let payload = format!("f{}-{}", i, seq).into_bytes();
                 send_record(&mut client, flows[i].src, flows[i].dst, &payload).map_err(herr)?;
@@ -274,6 +285,7 @@ async fn run_history(c: &Case, shard_tag: u32) -> Verdict {
                     }
                     f.pending_dns += 1;
                 }
+              }
             }
             Op::Reply(i, k) => {
                 let i = *i as usize % 4;
@@ -478,7 +490,7 @@ impl Suite for FlowSuite {
         "flow-histories"
     }
     fn rule(&self) -> String {
-        "histories of 3-16 operations over 4 flows (three loopback UDP servers and one on port 53 of a private loopback address): client datagram on flow i, k replies from the destination of flow i, a chain of 3-8 replies one every T/4 or 3T/8 without any client datagram, wait T/8 .. 13T/8 (T = 320 ms, real time), datagrams to a destination no socket can be connected to (255.255.255.255:9, fe80::1), datagrams to a closed port; a real CONNECT _udp2 stream over in-memory HTTP/2 feeds the real codec, udp_pipe and direct UDP multiplexer; after every step: each destination received exactly its flows' payloads, concurrent flows use distinct outbound ports, every reply reaches the client labelled (flow destination -> flow source), the outbound_udp_sockets gauge lies between the flows surely alive (idle < 0.7 T, DNS flow not yet fully answered) and those possibly alive (idle < 1.3 T + tick), a datagram after sure expiry is delivered, a flow that was active less than T/2 ago keeps its outbound socket, the multiplexer stream stays open after per-flow faults, and all sockets are released at the end; non-trivial = an expiry followed by reuse of the same pair, or a fault on one flow followed by traffic on another".into()
+        "histories of 3-16 operations over 4 flows (three loopback UDP servers and one on port 53 of a private loopback address): client datagram on flow i, k replies from the destination of flow i, a chain of 3-8 replies one every T/4 or 3T/8 without any client datagram, a burst of 10-25 client datagrams on one flow, one every T/8 (longer than T, while the other flows are silent), wait T/8 .. 13T/8 (T = 320 ms, real time), datagrams to a destination no socket can be connected to (255.255.255.255:9, fe80::1), datagrams to a closed port; a real CONNECT _udp2 stream over in-memory HTTP/2 feeds the real codec, udp_pipe and direct UDP multiplexer; after every step: each destination received exactly its flows' payloads, concurrent flows use distinct outbound ports, every reply reaches the client labelled (flow destination -> flow source), the outbound_udp_sockets gauge lies between the flows surely alive (idle < 0.7 T, DNS flow not yet fully answered) and those possibly alive (idle < 1.3 T + tick), a datagram after sure expiry is delivered, a flow that was active less than T/2 ago keeps its outbound socket, the multiplexer stream stays open after per-flow faults, and all sockets are released at the end; non-trivial = an expiry followed by reuse of the same pair, or a fault on one flow followed by traffic on another".into()
     }
     fn strategy(&self, _: Tier) -> BoxedStrategy<Case> {
         let op = prop_oneof![
@@ -487,7 +499,8 @@ impl Suite for FlowSuite {
             2 => prop_oneof![Just(0u8), Just(3u8), Just(11u8), Just(12u8)].prop_map(Op::Wait),
             1 => (0u8..2).prop_map(Op::SendUnconnectable),
             1 => Just(Op::SendClosedPort),
-            2 => (0u8..3, 0u8..6, 0u8..2).prop_map(|(i, n, g)| Op::ReplyChain(i, n, g)),
+            3 => (0u8..3, 0u8..6, 0u8..2).prop_map(|(i, n, g)| Op::ReplyChain(i, n, g)),
+            2 => (0u8..3, 0u8..16).prop_map(|(i, n)| Op::BusyFlow(i, n)),
         ];
         prop::collection::vec(op, 3..=16).prop_map(|ops| Case { ops }).boxed()
     }
@@ -524,14 +537,24 @@ impl Suite for FlowSuite {
         for (i, op) in c.ops.iter().enumerate() {
             if let Op::ReplyChain(f, n, g) = op {
                 let total = (3 + *n as u64 % 6) * (2 + *g as u64 % 2);
-                let sent_before = c.ops[..i].iter().rev().take_while(|o| !matches!(o, Op::Wait(_))).any(|o| *o == Op::Send(*f));
-                if total > 8 && sent_before && matches!(c.ops.get(i + 1), Some(Op::Send(x)) if x == f) {
+                let sent_before = c.ops[..i].iter().rev().take(3).any(|o| *o == Op::Send(*f));
+                let sent_after = c.ops[i + 1..].iter().take(2).any(|o| *o == Op::Send(*f));
+                if total > 8 && sent_before && sent_after {
                     chain_then_send = true;
                 }
             }
         }
         if chain_then_send {
             v.push("kept-alive-by-replies-then-reused");
+        }
+        // another flow was used shortly before a flow gets busy for longer than T
+        for (i, op) in c.ops.iter().enumerate() {
+            if let Op::BusyFlow(f, _) = op {
+                if c.ops[..i].iter().rev().take(3).any(|o| matches!(o, Op::Send(g) if g % 4 != f % 3)) {
+                    v.push("idle-flow-next-to-a-busy-one");
+                    break;
+                }
+            }
         }
         if reuse {
             v.push("expiry-then-reuse");
@@ -545,7 +568,7 @@ impl Suite for FlowSuite {
         v
     }
     fn required_classes(&self) -> Vec<&'static str> {
-        vec!["nontrivial", "expiry-then-reuse", "fault-then-traffic", "kept-alive-by-replies-then-reused"]
+        vec!["nontrivial", "expiry-then-reuse", "fault-then-traffic", "kept-alive-by-replies-then-reused", "idle-flow-next-to-a-busy-one"]
     }
     fn check(&self, c: &Case) -> Verdict {
         let c = c.clone();
